@@ -193,6 +193,20 @@ impl Prop for PPrintf {
                 _ => fmt.push(*rng.pick(&[120u32, 32, 124, 233, 58, 0x4e2d, 45, 53])),
             }
         }
+        // under -H -depth with a starting point that is a link to a directory find walks the link's target from a spelling
+        // of its own making: what %H and %P say there is the starting point as given and the path below it
+        {
+            let t = arr(&v["tree"]);
+            let linkroot = arr(&v["roots"]).iter().any(|r| {
+                let n = r["node"].as_u64().unwrap_or(0) as usize;
+                n > 0 && t[n - 1]["kind"] == "l"
+            });
+            if v["cfg"]["mode"] == "H" && v["cfg"]["depth"] == true && linkroot {
+                let mut f2: Vec<u32> = vec![37, 72, 124, 37, 80, 124];
+                f2.extend(&fmt);
+                fmt = f2;
+            }
+        }
         fmt.extend([92, 110]);
         // a very wide column: the starting points alone are enough (the output is that many bytes per entry)
         let digits = fmt.iter().fold((0usize, 0usize), |(run, best), c| if (48..=57).contains(c) { (run + 1, best.max(run + 1)) } else { (0, best) }).1;
